@@ -346,6 +346,7 @@ def make_compose(N, steps, K):
     return body
 
 
+PARALLEL_UNITS = True
 MODS = ["nessai.samplers.nestedsampler", "nessai.evidence", "nessai.livepoint"]
 EXTRA = {"nessai.samplers.nestedsampler": {"tqdm": _Bar}}
 
@@ -375,5 +376,5 @@ def units(tier):
                        extra_patches=EXTRA, witness_every=1))
     for (N, s, K) in comps:
         us.append(Unit(f"compose[N={N},steps={s},K={K}]", make_compose(N, s, K), MODS, opts, expect_cover=["end"], twin_runs=30,
-                       setup=setup, extra_patches=EXTRA, witness_every=20 if tier == "quick" else 200))
+                       setup=setup, extra_patches=EXTRA, witness_every=20 if tier == "quick" else 200, heavy=True))
     return us
